@@ -1125,3 +1125,81 @@ def earley_trace_part(res, scratch, tier, seed, builds, props, kinds=("curated",
     res.notes["diag_sets_differing_from_ideal_at_la0"] = res.notes.get("diag_sets_differing_from_ideal_at_la0", 0) + ndiag
     if lines:
         res.cov["samples"].append({"set_trace_line": lines[len(lines) // 2]})
+
+
+# ------------------------------------------------------------------ self-test of the binding (not a registered check)
+def selftest():
+    """Corrupt recorded traces / drop hook events and require TLC to reject exactly those lines."""
+    import copy
+    res = Result("SELF", "quick", 1, "model_checking")
+    scratch = Scratch("self")
+    failures = []
+    try:
+        b = [build(scratch, "plain", ("yv_replay",))]
+        ents = _corpus.curated()[:6]
+        vecs = corpus_vectors(res, scratch, "self", ents, trees=False)
+        blocks = [x for x in (blocks_from_vector(v, [(0, 1, 0, 1, 3, 0), (1, 0, 0, 1, 3, 0)], mems=(1,), want_trees=False, max_cases=10) for v in vecs.values()) if x]
+        code = CODEMAPS["ascii"]
+        recs, st = run_harness(os.path.join(b[0], "yv_replay"), blocks, args=("-t", "-s"))
+        plines, elines = [], []
+        for r in recs:
+            if r.get("k") != "parse":
+                continue
+            vec = vecs[r["g"]]
+            c2n = {code(t["c"]): t["n"] for t in vec["terms"]}
+            c2n.update({-2: 0, -1: -1})
+            terms = [t["n"] for t in vec["terms"]]
+            plines.append({"id": "%s/%s/%d" % (r["g"], r["w"], r["la"]), "terms": terms, "rules": vec["rules"], "sa": 0 if vec["ds"] else 1,
+                           "w": [c2n[c] for c in r["toks"]], "la": r["la"], "one": r["one"], "cost": r["cost"], "rec": r["rec"], "match": r["match"],
+                           "rc": r["rc"], "root": r["root"], "amb": r["amb"], "mp1": 0, "mp2": 0, "calls": r["calls"],
+                           "trees": [parse_canon(s, c2n) for s in r["trees"]], "over": r["over"]})
+            evs = [{"k": ev["k"], "a": ev["a"], "c": ev["c"], "e": ev["e"], "f": c2n.get(ev["f"], -99) if ev["a"] > 0 else 0, "it": [it[:3] for it in ev["it"]]}
+                   for ev in r.get("ev", []) if ev["k"] in (1, 2)]
+            elines.append({"id": plines[-1]["id"], "terms": terms, "rules": vec["rules"], "n": r["n"], "la": r["la"], "ev": evs})
+        # 1. untouched traces are accepted
+        ok, rej, _ = validate_trace(scratch, "ParseTrace", plines[:200], "self_p0")
+        rej = [x for x in rej if not all("deviation" in y for y in x[2])]
+        if not ok or rej:
+            failures.append("ParseTrace rejects untouched lines: %s" % rej[:2])
+        ok, rej, _ = validate_trace(scratch, "EarleyTrace", elines[:200], "self_e0")
+        if not ok or [x for x in rej if not all(y.startswith("DIAG") for y in x[2])]:
+            failures.append("EarleyTrace rejects untouched lines: %s" % rej[:2])
+        # 2. corrupted parse lines must be rejected, and only they
+        bad = copy.deepcopy(plines[:60])
+        victims = {}
+        i1 = next(i for i, ln in enumerate(bad) if ln["trees"] and ln["trees"][0][0] == 3 and not ln["calls"])
+        bad[i1]["trees"][0][1] += 1                         # abstract node name
+        victims[i1 + 1] = "tree"
+        i2 = next(i for i, ln in enumerate(bad) if not ln["calls"] and i != i1 and ln["root"] == 1)
+        bad[i2]["calls"] = [[0, 0, 0]]                       # a syntax error that never happened
+        victims[i2 + 1] = "calls"
+        i3 = next((i for i, ln in enumerate(bad) if ln["calls"] and ln["sa"] == 1), None)
+        if i3 is not None:
+            bad[i3]["calls"][0][0] = max(0, bad[i3]["calls"][0][0] - 1) if bad[i3]["calls"][0][0] > 0 else 1   # error token moved
+            victims[i3 + 1] = "errtok"
+        ok, rej, _ = validate_trace(scratch, "ParseTrace", bad, "self_p1")
+        got = {x[0] for x in rej if not all("deviation" in y for y in x[2])}
+        if not ok or not set(victims) <= got or len(got - set(victims)) > 0:
+            failures.append("ParseTrace corruption test: corrupted lines %s, rejected %s" % (sorted(victims), sorted(got)))
+        # 3. corrupted / incomplete set traces
+        bad = copy.deepcopy(elines[:60])
+        j1 = next(i for i, ln in enumerate(bad) if len(ln["ev"]) >= 3 and ln["ev"][2]["it"])
+        bad[j1]["ev"][2]["it"][0][2] += 1                    # distance (hence origin) of an item
+        j2 = next(i for i, ln in enumerate(bad) if len(ln["ev"]) >= 4 and i != j1 and [e["a"] for e in ln["ev"]] == list(range(len(ln["ev"]))))
+        del bad[j2]["ev"][1]                                 # a hook event is missing
+        ok, rej, _ = validate_trace(scratch, "EarleyTrace", bad, "self_e1")
+        got = {x[0] for x in rej if not all(y.startswith("DIAG") for y in x[2])}
+        if not ok or not {j1 + 1, j2 + 1} <= got:
+            failures.append("EarleyTrace corruption test: corrupted lines %s, rejected %s" % ([j1 + 1, j2 + 1], sorted(got)))
+        # 4. lookahead groups
+        groups = [{"id": "g%d" % i, "kind": "C09", "outs": [{"la": 0, "dbg": 0, "obs": {"rc": 0, "trees": ["x"]}}, {"la": 1, "dbg": 0, "obs": {"rc": 0, "trees": ["x"]}}]} for i in range(5)]
+        groups[3]["outs"][1]["obs"]["trees"] = ["y"]
+        ok, rej, _ = validate_trace(scratch, "LaTrace", groups, "self_l1")
+        if not ok or {x[0] for x in rej} != {4}:
+            failures.append("LaTrace corruption test: rejected %s" % rej)
+    finally:
+        scratch.cleanup()
+    for f in failures:
+        print("SELFTEST FAILURE:", f)
+    print("selftest:", "FAILED" if failures else "ok (corrupted trace lines and a dropped hook event are rejected, untouched ones accepted)")
+    return 1 if failures else 0
